@@ -642,6 +642,7 @@ class Sim:
                         self.epoch_transition = True
                     if pid == self.cancel_pid and self.cancel_ids_at_promotion is None:
                         self.cancel_ids_at_promotion = list(o["ids"])
+                        self.cancel_complete_at_promotion = bool(o["complete"])
                         self.cancel_truth_at_promotion = sorted(self.active_batches())  # what the scheduler really holds for this submission
                     r["ids0"] = list(o["ids"])
                     r["rows0"] = set(self._rows_on_disk())
@@ -882,8 +883,12 @@ class Sim:
         self.log("SCANCEL", bid)
         self.shared_event(a, "scancel", str(bid))
         self.scancelled.add(bid)
-        self.reply(a, rc=0)
         b = self.batches.get(bid)
+        if self.scen.get("scancel_gone_fails") and (b is None or b["state"] == "DONE"):
+            # the batch has left the scheduler's books (it ended a while ago): a real scancel fails with "Invalid job id"
+            self.scancel_failures = getattr(self, "scancel_failures", 0) + 1
+            return self.reply(a, err=f"scancel: error: Kill job error on job id {bid}: Invalid job id specified\n", rc=1)
+        self.reply(a, rc=0)
         if b and b["state"] == "PENDING":
             b["state"] = "DONE"
             b["cancelled"] = True
@@ -2079,6 +2084,13 @@ class Sim:
     def final_cancel(self, complete):
         last = self.obs[-1] if self.obs else None
         if not (last and last["canceled"]):
+            # cancel-jobs obtained the role on an incomplete submission and nothing was injected into it (a scancel that fails
+            # because the batch is already gone is an answer of the scheduler, not a fault): it has to mark the submission canceled
+            if last and self.cancel_ids_at_promotion is not None and not getattr(self, "cancel_complete_at_promotion", True) and "usercancel" in self.top_rc and all(str(f[0]).startswith("squeue") for f in self.faults_injected) and not (
+                glob.glob(os.path.join(glob.escape(self.out), "*.lock")) + glob.glob(os.path.join(glob.escape(self.out), "results", "*.lock"))
+            ):  # (a lock marker left behind by a node that scancel killed inside a lock hold is the known hazard of C12, not this)
+                unasked = [b for b in getattr(self, "cancel_truth_at_promotion", []) if b not in self.scancelled]
+                self.viol("C14", "cancel-without-effect", f"cancel-jobs obtained the submitter role (exit {self.top_rc.get('usercancel')}) but the submission was never marked canceled; active batches never asked to be canceled: {unasked}; role now held by {last['submitter']}")
             return
         rows = self._rows_on_disk()
         if self.rows_at_cancel and not self.rows_unknown:
@@ -2179,6 +2191,7 @@ class Sim:
             "killed_nodes": sum(1 for b in self.batches.values() if b.get("killed")),
             "resub_after_cancel": self.resub_after_cancel,
             "window_resub": bool(self.window_resub),
+            "scancel_failures": getattr(self, "scancel_failures", 0),
             "prompted_recoveries": self.prompted_recoveries,
             "window_resub_rc": self.top_rc.get("userresub_window"),
             "scancels": len(self.scancelled),
